@@ -150,6 +150,20 @@ def directed(rng, quick):
                     yield payload('backlog%d' % n, [desc(kind, True, doc, rk)], ops)
                     ops = ['ar0', 'ar1', 'w0:' + hx(rbytes(rng, nbytes)), 'w1:' + hx(rbytes(rng, nbytes)), 'k0', 'k1'] + polls(rng, npolls)
                     yield payload('backlog%d' % n, [desc(kind, True, doc, rk), desc(kind, False, False, rk)], ops)
+    # --- scale of the READY set: 9..14 descriptors ready together (sockets that stay writable, readers that do not
+    #     drain): EPoller serves one batch of MAX_EVENTS per Poll, SelectPoller all of them
+    for n in ((9, 10, 11, 12) if quick else (9, 10, 11, 12, 13, 14)):
+        for mode in ('writers', 'readers', 'mixed'):
+            ds, ops = [], []
+            for d in range(n):
+                wr = mode == 'writers' or (mode == 'mixed' and d % 2 == 0)
+                if wr:
+                    ds.append(desc('s', rng.random() < 0.5, False, 9)); ops.append('aw%d' % d)
+                else:
+                    ds.append(desc(rng.choice(KINDS), rng.random() < 0.5, False, rng.choice([0, 0, 1])))
+                    ops += ['ar%d' % d, 'w%d:%s' % (d, hx(rbytes(rng, 3)))]
+            for order in ('p', 'q'):
+                yield payload('ready%d:%s' % (n, mode), ds, ops + [order, order, rng.choice('pq'), 'k%d' % rng.randrange(n), order, order])
     # --- write readiness on sockets; write callback removing itself / the read side / another descriptor
     for conn in (True, False):
         for ws in ([], ['x0w'], ['x0r'], ['x0w', 'a0w'], ['x1r'], ['x0r', 'a0r']):
